@@ -205,6 +205,9 @@ class Analysis:
         self.l3_tie = []         # MVP-8: Go's l3stale vs Lean's Model.L3.cleanB on the exported L3 differ: (stream, line number, in, go, lean)
         self.l3_bad = []         # MVP-8, must-hold streams: Model.L3.Clean fails on a real snapshot / run: (stream, line number, run, cycle, go, lean)
         self.l3_judged = 0
+        self.rv_tie = []         # rig: Go's verdict on the values its reads returned vs Lean's (cur on the snapshot): (stream, line number, in, go, lean)
+        self.rv_bad = []         # rig, must-hold streams: a read returned something else than the current value of its line
+        self.rv_judged = 0
         self.ref_fail = []       # (stream, line number, run info, why)
         self.hard = []           # violating snapshots: dict(stream, case, run, cycle, line, go, lean, clause)
         self.unclassified = []   # flush streams: violating snapshots of runs whose refinement replay was lost before
@@ -268,6 +271,15 @@ def analyse(an, stream, ins, go, lean, must_hold, complete_lean=True):
         lv = lean_verdict(m)
         if lv != g:
             an.tie_diff.append((stream, i + 1, l[:300], g, m))
+        rm2 = re.search(r" rvv=(\w+)", l) if tag == "S " else None
+        if rm2 and m != "?":
+            lm2 = re.search(r" rv=(\w+)", m)
+            lr = lm2.group(1) if lm2 else "missing"
+            an.rv_judged += l.split(" rv=", 1)[1].split(" ;", 1)[0].count(",") + 1
+            if rm2.group(1) != lr:
+                an.rv_tie.append((stream, i + 1, l[-300:], rm2.group(1), lr))
+            if must_hold and (rm2.group(1) != "ok" or lr != "ok"):
+                an.rv_bad.append((stream, i + 1, run, cyc, rm2.group(1), lr))
         gm = re.search(r" l3v=(\w+)", l) if tag == "S " else None
         if gm and m != "?":
             lm = re.search(r" l3clean=(\w+)", m)
@@ -585,6 +597,7 @@ def run(ck):
             "excused_by_flush_finding": an.excused, "runs_with_busy_flush": an.busyflush_runs,
             "aux_observations (not clauses of C06)": dict(an.aux), "witnesses_reproduce_on": witnesses,
             "mvp8_snapshots_judged_by_Model.L3.cleanB (Go l3stale vs Lean, must agree and must hold)": an.l3_judged,
+            "rig_read_values_judged (returned value = current value of the line on the snapshot; Go vs Lean, must agree and must hold)": an.rv_judged,
             "stream_seconds": round(time.time() - t_streams, 1)}
         ck.cov["exhaustive_note"] = ("rig, every assignment of <= k requests (read|write × line × start offset) to 2 and 3 cores on line sets {0},{0,64},{0,128 (MVP-8)}, "
                                 "modulo line/time-shift symmetry: quick k=3 (≈ 4·10^4 runs), thorough k=4 (≈ 9.6·10^5 runs), offsets {0,2,310,313}; "
@@ -602,6 +615,15 @@ def run(ck):
         if an.tie_diff:
             s, i, l, g, m = an.tie_diff[0]
             ck.broken.append(f"tie (Go evaluation vs Lean MsiInv) differs on {len(an.tie_diff)} lines; first: stream {s} line {i}: go={g!r} lean={m!r} in={l!r}")
+        if an.rv_tie:
+            s, i, l, gv, lc = an.rv_tie[0]
+            ck.broken.append(f"tie (Go vs Lean: the value a rig read returned vs the current value of its line on the snapshot) differs on {len(an.rv_tie)} snapshots; "
+                             f"first: stream {s} line {i}: go={gv} lean={lc} in=…{l!r}")
+        if an.rv_bad:
+            s, i, run, cyc, gv, lc = an.rv_bad[0]
+            ck.broken.append(f"correspondence (Props.C05.Msi.read_returns_cur on the real cache controllers): on {len(an.rv_bad)} snapshots of the must-hold rig streams a read "
+                             f"returned something else than the current value of its line (the Modified holder's copy, else the next level); first: stream {s} line {i} "
+                             f"variant={run['variant'] if run else '?'} cores={run['cores'] if run else '?'} cycle={cyc} go={gv} lean={lc}")
         if an.l3_tie:
             s, i, l, gv, lc = an.l3_tie[0]
             ck.broken.append(f"tie (Go l3stale vs Lean Model.L3.cleanB on the exported L3 of MVP-8) differs on {len(an.l3_tie)} snapshots; first: stream {s} line {i}: go={gv} lean={lc} in={l!r}")
